@@ -10,6 +10,7 @@ import (
 
 	"github.com/plgd-dev/go-coap/v3/message"
 	"github.com/plgd-dev/go-coap/v3/message/codes"
+	coapSync "github.com/plgd-dev/go-coap/v3/pkg/sync"
 )
 
 func init() { props["C06"] = runC06 }
@@ -35,6 +36,8 @@ func (e c06Ev) desc() string {
 		return fmt.Sprintf("wait:%d", e.Ms)
 	case "tick":
 		return "tick"
+	case "tickx":
+		return fmt.Sprintf("tickx:%d", e.ID)
 	case "piggy":
 		return fmt.Sprintf("piggy:%d:%d", e.ID, e.Code)
 	case "sep":
@@ -142,10 +145,70 @@ func runC06History(evs []c06Ev, ackMs, maxRt, nstart int) string {
 				continue
 			}
 		}
-		if e.Kind == "sep" || e.Kind == "cancel" {
+		if e.Kind == "sep" || e.Kind == "cancel" || e.Kind == "tickx" {
 			if r := reqs[e.ID]; r == nil {
 				continue
 			}
+		}
+		if e.Kind == "tickx" {
+			// A housekeeping tick that has already fetched a pending entry when the caller of request e.ID
+			// cancels and returns: forced with the yield between Range's fetch and its callback. The
+			// execution must be equivalent to "Cancel id; Tick", which is how it is reported.
+			r := reqs[e.ID]
+			var cancelRets []c06Result
+			fired := false
+			coapSync.VerifYieldHook = func(point string) {
+				if point != "Map.Range.unlocked" || fired || r.state == "done" {
+					return
+				}
+				fired = true
+				r.cancel()
+				select {
+				case x := <-results:
+					cancelRets = append(cancelRets, x)
+					if rq := reqs[x.id]; rq != nil {
+						rq.state = "done"
+					}
+				case <-time.After(2 * time.Second):
+				}
+			}
+			mc.cc.CheckExpirations(time.Now())
+			coapSync.VerifYieldHook = nil
+			mc.sync()
+			time.Sleep(0)
+			out := mc.takeOut()
+			mc.takeLog()
+			var ems []string
+			for _, w := range out {
+				if !w.Bad && r.first != nil && w.MID == r.mid && w.Typ == 0 && w.Code == r.code {
+					ems = append(ems, fmt.Sprintf("OCopy %d %s", r.id, coqBool(bytes.Equal(w.Raw, r.first))))
+				} else {
+					matched := false
+					for _, id := range order {
+						q := reqs[id]
+						if !w.Bad && q.first != nil && w.MID == q.mid && w.Typ == 0 && w.Code == q.code {
+							ems = append(ems, fmt.Sprintf("OCopy %d %s", id, coqBool(bytes.Equal(w.Raw, q.first))))
+							matched = true
+							break
+						}
+					}
+					if !matched {
+						ems = append(ems, "OOther")
+					}
+				}
+			}
+			if fired {
+				var rs []string
+				for _, x := range cancelRets {
+					rs = append(rs, fmt.Sprintf("(%d, %d, %d)", x.id, x.res, x.code))
+				}
+				items = append(items, fmt.Sprintf("HE (Cancel %d) [] [%s]", e.ID, strings.Join(rs, "; ")))
+			}
+			items = append(items, fmt.Sprintf("HE Tick [%s] []", strings.Join(ems, "; ")))
+			if perEventC06 != nil {
+				perEventC06(e)
+			}
+			continue
 		}
 		switch e.Kind {
 		case "send":
@@ -316,9 +379,23 @@ func runC06History(evs []c06Ev, ackMs, maxRt, nstart int) string {
 	}
 	sb.WriteString(strings.Join(items, "; "))
 	sb.WriteString("]")
-	// release every caller still blocked
+	// release every caller still blocked and wait until all of them have returned, so that nothing of this
+	// history is still running when the next one starts
+	pendingCalls := 0
 	for _, r := range reqs {
+		if r.state != "done" {
+			pendingCalls++
+		}
 		r.cancel()
+	}
+	waitAll := time.After(3 * time.Second)
+	for pendingCalls > 0 {
+		select {
+		case <-results:
+			pendingCalls--
+		case <-waitAll:
+			pendingCalls = 0
+		}
 	}
 	return sb.String()
 }
@@ -465,6 +542,11 @@ func runC06(a runArgs) error {
 		}
 		emit([]c06Ev{first, second, {Kind: "age", Ms: 1500}, {Kind: "tick"}, {Kind: "age", Ms: 1000}, {Kind: "tick"}, {Kind: "ack", ID: 1}, {Kind: "cancel", ID: 2}, {Kind: "cancel", ID: 1}}, 1000, 2, 2)
 	}
+	// a tick that has already fetched the pending entry when the caller cancels and returns
+	for i := 0; i < 3; i++ {
+		emit([]c06Ev{{Kind: "send", ID: 1, Tok: []byte{0x70, byte(i)}}, {Kind: "age", Ms: 2500}, {Kind: "tickx", ID: 1}, {Kind: "age", Ms: 2500}, {Kind: "tick"}}, 2000, 4, 1)
+	}
+	emit([]c06Ev{{Kind: "send", ID: 1, Tok: []byte{0x71}}, {Kind: "send", ID: 2, Tok: []byte{0x72}}, {Kind: "age", Ms: 1500}, {Kind: "tick"}, {Kind: "age", Ms: 1000}, {Kind: "tickx", ID: 2}, {Kind: "cancel", ID: 1}}, 1000, 4, 2)
 	// a request that had to queue for its NSTART slot while real time passed: its retransmission timer
 	// starts at its own first transmission, not when it was issued
 	for i := 0; i < 2; i++ {
